@@ -142,14 +142,17 @@ static void access_bytes(const void *addr, size_t size, int is_write, int atomic
     }
 }
 
+static int sb_overlaps(Thread *t, uintptr_t a, size_t n);
 void mon_plain(const void *addr, size_t size, int is_write, const void *pc)
 {
     if (addr_on_any_stack(addr)) return;
+    if (T[my_tid].sb_n && sb_overlaps(&T[my_tid], (uintptr_t)addr, size)) tso_flush(&T[my_tid]);
     access_bytes(addr, size, is_write, 0, pc);
 }
 void mon_range(const void *addr, size_t size, int is_write, const void *pc)
 {
     if (!size || addr_on_any_stack(addr)) return;
+    if (T[my_tid].sb_n && sb_overlaps(&T[my_tid], (uintptr_t)addr, size)) tso_flush(&T[my_tid]);
     access_bytes(addr, size, is_write, 0, pc);
 }
 void mon_free_block(const void *addr, size_t size, const void *pc)
@@ -189,14 +192,17 @@ void __tsan_vptr_read(void **a) { (void)a; }
 /* ------------------------------------------------------------------ atomics */
 enum { mo_relaxed, mo_consume, mo_acquire, mo_release, mo_acq_rel, mo_seq_cst };
 static VC sc_clock;        /* global clock for seq_cst fences */
+static const VC zero_vc;
+static int tso_delay(void *a); static void sb_push(Thread *t, uintptr_t a, int n, uint64_t v, const VC vc); static int sb_overlaps(Thread *t, uintptr_t a, size_t n);
 
 static void note_spin(uintptr_t a, uint64_t observed, const void *pc)
 {
     Thread *t = &T[my_tid]; unsigned long ctx = ctx_hash() ^ (unsigned long)pc, ep = addr_write_epoch(a);
-    if (t->spin_addr == a && t->spin_val == observed && t->spin_ctx == ctx && t->spin_epoch == ep) t->spin_parked = 1;
+    if (t->spin_addr == a && t->spin_val == observed && t->spin_ctx == ctx && t->spin_epoch == ep) { if (++t->spin_same >= ctl->spin_patience) { t->spin_parked = 1; if (t->sb_n || t->pst_n) tso_flush(t); } }
+    else t->spin_same = 0;
     t->spin_addr = a; t->spin_val = observed; t->spin_ctx = ctx; t->spin_epoch = ep;
 }
-static void clear_spin(void) { Thread *t = &T[my_tid]; t->spin_addr = 0; t->spin_parked = 0; t->spin_repeat = 0; }
+static void clear_spin(void) { Thread *t = &T[my_tid]; t->spin_addr = 0; t->spin_parked = 0; t->spin_repeat = 0; t->spin_same = 0; }
 
 static void atomic_load_sync(void *a, int mo)
 {
@@ -217,10 +223,12 @@ static void atomic_store_sync(void *a, int mo, int is_rmw)
 
 #define ATOMIC_FAMILY(BITS, TYPE) \
 TYPE __tsan_atomic##BITS##_load(const volatile TYPE *a, int mo) { TYPE v; \
-    sched_point(OP_ATOMIC, (void *)a, 0); access_bytes((void *)a, sizeof(TYPE), 0, 1, RA); \
+    sched_point(OP_ATOMIC, (void *)a, 0); if (T[my_tid].sb_n && sb_overlaps(&T[my_tid], (uintptr_t)a, sizeof(TYPE))) tso_flush(&T[my_tid]); \
+    access_bytes((void *)a, sizeof(TYPE), 0, 1, RA); \
     v = __atomic_load_n(a, __ATOMIC_SEQ_CST); atomic_load_sync((void *)a, mo); ch_observe((void *)a, (uint64_t)v); note_spin((uintptr_t)a, (uint64_t)v, RA); return v; } \
 void __tsan_atomic##BITS##_store(volatile TYPE *a, TYPE v, int mo) { \
     sched_point(OP_ATOMIC, (void *)a, 1); access_bytes((void *)a, sizeof(TYPE), 1, 1, RA); \
+    if (mo != mo_seq_cst && tso_delay((void *)a)) { sb_push(&T[my_tid], (uintptr_t)a, sizeof(TYPE), (uint64_t)v, mo == mo_release ? T[my_tid].vc : (T[my_tid].has_fence_rel ? T[my_tid].fence_rel : zero_vc)); vc_tick(my_tid); clear_spin(); return; } \
     __atomic_store_n(a, v, __ATOMIC_SEQ_CST); atomic_store_sync((void *)a, mo, 0); ch_publish((void *)a, (uint64_t)v); clear_spin(); } \
 TYPE __tsan_atomic##BITS##_exchange(volatile TYPE *a, TYPE v, int mo) { TYPE o; \
     sched_point(OP_ATOMIC, (void *)a, 2); access_bytes((void *)a, sizeof(TYPE), 1, 1, RA); \
@@ -260,10 +268,72 @@ void __tsan_atomic_thread_fence(int mo)
 }
 void __tsan_atomic_signal_fence(int mo) { (void)mo; }
 
+/* ------------------------------------------------------------------ x86-TSO store buffers (option -B)
+ * The scheduler by itself is sequentially consistent.  With -B a plain (volatile) store or an atomic store weaker than
+ * seq_cst may, as a deviation counted in the -d budget, stay in the storing thread's buffer: the other threads keep
+ * reading the old value until the thread executes something that drains the buffer on x86 (mfence / seq_cst operation,
+ * locked read-modify-write, any lock, thread or system operation, a yield), is found spinning, reads the location itself
+ * (forwarding is approximated by an early drain, which TSO also allows) or finishes.  Buffers drain in FIFO order, a
+ * store that is not delayed first drains what is buffered, so store-store order is never broken: every behaviour
+ * produced is an x86-TSO behaviour (and so a behaviour of every weaker machine), none is invented.
+ * A volatile store is executed by the instrumented code itself after the callback returns; the runtime notes the old
+ * value, and when the thread next enters the runtime (before any other thread can run) takes the new value out of
+ * memory into the buffer and puts the old one back. */
+static uint64_t raw_read(uintptr_t a, int n) { uint64_t v = 0; memcpy(&v, (void *)a, n); return v; }
+static void raw_write(uintptr_t a, int n, uint64_t v) { memcpy((void *)a, &v, n); }
+static void sb_push(Thread *t, uintptr_t a, int n, uint64_t v, const VC vc)
+{
+    if (t->sb_n == SBMAX) mc_engine_error("store buffer overflow");
+    t->sb[t->sb_n].a = a; t->sb[t->sb_n].n = n; t->sb[t->sb_n].v = v; vc_copy(t->sb[t->sb_n].vc, vc); t->sb_n++;
+}
+void tso_capture(Thread *t)
+{
+    uint64_t nv;
+    if (!t->pst_n) return;
+    nv = raw_read(t->pst_a, t->pst_n);
+    raw_write(t->pst_a, t->pst_n, t->pst_old);
+    sb_push(t, t->pst_a, t->pst_n, nv, t->pst_vc);
+    if (ctl->verbose) mc_log("T%d store of %#lx to %p stays in its store buffer", (int)(t - T), (unsigned long)nv, (void *)t->pst_a);
+    t->pst_n = 0;
+}
+void tso_flush(Thread *t)
+{
+    int i;
+    tso_capture(t);
+    for (i = 0; i < t->sb_n; i++) {
+        VC *l = sync_clock((void *)t->sb[i].a, 1);
+        raw_write(t->sb[i].a, t->sb[i].n, t->sb[i].v);
+        vc_copy(*l, t->sb[i].vc);                      /* release with the clock the thread had when it executed the store */
+        addr_bump_epoch(t->sb[i].a);
+        ch_publish((void *)t->sb[i].a, t->sb[i].v ^ 0x5b00);
+        if (ctl->verbose) mc_log("T%d store buffer drains: %p = %#lx", (int)(t - T), (void *)t->sb[i].a, (unsigned long)t->sb[i].v);
+    }
+    t->sb_n = 0;
+}
+static int sb_overlaps(Thread *t, uintptr_t a, size_t n)
+{
+    int i;
+    for (i = 0; i < t->sb_n; i++) if (a < t->sb[i].a + t->sb[i].n && t->sb[i].a < a + n) return 1;
+    return 0;
+}
+/* decide whether the store the calling thread is about to make stays in its buffer */
+static int tso_delay(void *a)
+{
+    Thread *t = &T[my_tid];
+    if (!mc_active || !ctl->tso || addr_on_any_stack(a)) return 0;
+    if (t->sb_n < SBMAX - 1 && env_choice(2, COST_DEVIATION, "store stays in the store buffer")) return 1;
+    tso_flush(t);            /* not delayed: everything older becomes visible first */
+    return 0;
+}
+
 /* volatile accesses of the legacy volatile + __sync idiom: release store / acquire load (x86-TSO meaning), visible steps */
 #define VOLATILE(n, TYPE) \
-    void __tsan_volatile_read##n(void *a) { sched_point(OP_ATOMIC, a, 6); access_bytes(a, n, 0, 1, RA); atomic_load_sync(a, mo_acquire); ch_observe(a, (uint64_t)*(volatile TYPE *)a); note_spin((uintptr_t)a, (uint64_t)*(volatile TYPE *)a, RA); } \
-    void __tsan_volatile_write##n(void *a) { sched_point(OP_ATOMIC, a, 7); access_bytes(a, n, 1, 1, RA); atomic_store_sync(a, mo_release, 0); ch_publish(a, 4); clear_spin(); } \
+    void __tsan_volatile_read##n(void *a) { sched_point(OP_ATOMIC, a, 6); if (T[my_tid].sb_n && sb_overlaps(&T[my_tid], (uintptr_t)a, n)) tso_flush(&T[my_tid]); \
+        access_bytes(a, n, 0, 1, RA); atomic_load_sync(a, mo_acquire); ch_observe(a, (uint64_t)*(volatile TYPE *)a); note_spin((uintptr_t)a, (uint64_t)*(volatile TYPE *)a, RA); } \
+    void __tsan_volatile_write##n(void *a) { Thread *t = &T[my_tid]; sched_point(OP_ATOMIC, a, 7); access_bytes(a, n, 1, 1, RA); \
+        if (tso_delay(a)) { t->pst_a = (uintptr_t)a; t->pst_n = n; t->pst_old = raw_read((uintptr_t)a, n); vc_copy(t->pst_vc, t->vc); vc_tick(my_tid); } \
+        else { atomic_store_sync(a, mo_release, 0); ch_publish(a, 4); } \
+        clear_spin(); } \
     void __tsan_unaligned_volatile_read##n(void *a) { __tsan_volatile_read##n(a); } \
     void __tsan_unaligned_volatile_write##n(void *a) { __tsan_volatile_write##n(a); }
 VOLATILE(1, uint8_t) VOLATILE(2, uint16_t) VOLATILE(4, uint32_t) VOLATILE(8, uint64_t)
